@@ -1004,6 +1004,53 @@ func c12Malformed(action, body string, injection bool) vx.Scenario {
 		}}
 }
 
+// c12CloseSilentBackend: the backend neither answers the close frame nor hangs up (it is busy, or has a
+// close handler of its own); a shim close must still close the agent's end of the backend websocket.
+func c12CloseSilentBackend(prelude []string) vx.Scenario {
+	return vx.Scenario{Name: fmt.Sprintf("c12/close-with-silent-backend/%v", prelude), PB: 1, MaxSteps: 20000, MaxTime: time.Minute,
+		Setup: func(s *vs.Sched) func(*vs.Result) vx.Exec {
+			w := newWorld(false)
+			var res *callResult
+			agentEndClosed := false
+			s.Thread("driver", func() {
+				w.call("open", "ws://client.example/s", nil)
+				for _, p := range prelude {
+					switch p {
+					case "data":
+						w.call("data", `[{"id":"1","msg":"m"}]`, nil)
+					case "bsend":
+						if len(w.servers) > 0 {
+							w.servers[0].WriteMessage(vws.TextMessage, []byte("srv"))
+						}
+					case "poll":
+						w.call("poll", `{"id":"1"}`, nil)
+					}
+					vs.Quiesce()
+				}
+				res = &callResult{}
+				res = w.call("close", `{"id":"1"}`, nil)
+				vs.Quiesce()
+				// looked at now: when the execution is torn down every parked goroutine unwinds and closes things
+				agentEndClosed = len(w.clients) == 1 && w.clients[0].Closed()
+			})
+			return func(r *vs.Result) vx.Exec {
+				var x vx.Exec
+				base(r, &x)
+				if res == nil || !res.done {
+					return x
+				}
+				x.Obs = fmt.Sprintf("close -> %d, agent end closed=%v", res.status, agentEndClosed)
+				if res.status != 200 {
+					x.Violations = append(x.Violations, fmt.Sprintf("STATUS: close of an open session answered %d", res.status))
+				}
+				if len(w.clients) == 1 && !agentEndClosed {
+					x.Violations = append(x.Violations, fmt.Sprintf("BACKEND-LEFT-OPEN: the session was closed (answer %d) but the agent's websocket to the backend, which does not answer close frames, is still open", res.status))
+				}
+				return x
+			}
+		}}
+}
+
 func c12MalformedAll() []vx.Scenario {
 	var out []vx.Scenario
 	data := []string{
@@ -1026,6 +1073,15 @@ func c12MalformedAll() []vx.Scenario {
 func c12Scenarios(th bool) []vx.Scenario {
 	var out []vx.Scenario
 	out = append(out, c12MalformedAll()...)
+	for _, pre := range [][]string{{}, {"data"}, {"bsend"}, {"bsend", "poll"}, {"data", "bsend"}} {
+		out = append(out, c12CloseSilentBackend(pre))
+	}
+	// what polls deliver is what the backend sent (several messages queued before the poll, then a close)
+	{
+		a11 := alphabetC11(false)
+		out = append(out, c11Down("c12/delivery/[0 1 2]/poll@3", []msg{a11[0], a11[1], a11[2]}, []int{3}, 0))
+		out = append(out, c11DownClose("c12/delivery/[2 0 1]/then-close/poll@3", []msg{a11[2], a11[0], a11[1]}, []int{3}, true, 0))
+	}
 	al := c12Alphabet()
 	depth := 4
 	if th {
